@@ -651,7 +651,9 @@ std::vector<int16_t> adversarial(Choices &c, size_t n, std::string &desc, bool &
 }
 
 Verdict cmnFixpoint(decoder_t *d, const char *when) {
-  for (int upd = 0; upd < 2; ++upd) {
+  // with the update first: the set_cmn below re-seeds the frame counter and would hide a state that
+  // only the update after the utterance can reach
+  for (int upd = 1; upd >= 0; --upd) {
     const char *g = decoder_get_cmn(d, upd);
     PBT_CHECK(g != NULL, "cmn-text", when << ": decoder_get_cmn returned NULL");
     std::string g1 = g;
